@@ -28,6 +28,8 @@ FAMILIES = {
         {'family': 'tlccover', 'knobs': {}, 'quick': 0, 'thorough': 0, 'first': 700000},
         {'family': 'core', 'knobs': {'p_cancel': 0.15, 'p_error': 0.15}, 'quick': 400, 'thorough': 6000},
         {'family': 'cut', 'knobs': {}, 'quick': 300, 'thorough': 5000, 'first': 100000},
+        # the terminal frame is the last thing read before the loss (terminal signal and loss handled in one receiver step)
+        {'family': 'cut', 'knobs': {'p_terminal_race': 1.0, 'faults': ['eof', 'eof', 'error']}, 'quick': 300, 'thorough': 4000, 'first': 200000},
     ],
     'C13': [
         {'family': 'core', 'knobs': {'max_steps': 20}, 'quick': 120, 'thorough': 1500},
